@@ -70,6 +70,25 @@ def base_forms(tier):
         out.append((f"extra-sheet:{extra}", {"survey": [{"type": "text", "name": "q", "label": "Q"}], extra: [{"form_title": "T", "x": "1"}]}))
     out.append(("extra-sheet:two", {"survey": [{"type": "text", "name": "q", "label": "Q"}], "choices": [{"list_name": "c", "name": "x", "label": "X"}],
                                     "setings": [{"a": "1"}], "entites": [{"a": "1"}]}))
+    # broken workbooks: the refusal (error type, text, cited row) must be the same through every container
+    q = {"type": "text", "name": "q", "label": "Q"}
+    ch = [{"list_name": "c", "name": "x", "label": "X"}, {"list_name": "c", "name": "y", "label": "Y"}]
+    broken = {
+        "unknown-ref": {"survey": [q, {"type": "text", "name": "r", "label": "R ${zz}"}]},
+        "missing-list": {"survey": [q, {"type": "select_one zz", "name": "s", "label": "S"}], "choices": ch},
+        "unmatched-end": {"survey": [q, {"type": "end group"}]},
+        "unmatched-begin": {"survey": [{"type": "begin repeat", "name": "r", "label": "R"}, q]},
+        "invalid-name": {"survey": [q, {"type": "text", "name": "1a", "label": "A"}]},
+        "dup-names": {"survey": [q, dict(q)]},
+        "dup-choices": {"survey": [{"type": "select_one c", "name": "s", "label": "S"}], "choices": [ch[0], dict(ch[0])]},
+        "nameless-choice": {"survey": [{"type": "select_one c", "name": "s", "label": "S"}], "choices": [ch[0], {"list_name": "c", "label": "Y"}]},
+        "bad-param": {"survey": [{"type": "text", "name": "t", "label": "T", "parameters": "rows=abc"}]},
+        "calc-without": {"survey": [q, {"type": "calculate", "name": "k"}]},
+        "unknown-type": {"survey": [q, {"type": "foo", "name": "f", "label": "F"}]},
+        "no-survey": {"choices": ch},
+    }
+    for name, wb in broken.items():
+        out.append((f"broken:{name}", wb))
     N = 4 if tier == "quick" else 5
     for i, forest in enumerate(forests_upto(N, 3)):
         out.append((f"layout:{i}", {"survey": rows_from_forest(forest, ["a", "b", "c", "d", "e", "f", "g"])}))
@@ -242,7 +261,8 @@ def deliver(src, fmt, ch, explicit, stem="stemX", suffix=None):
 def outcome_key(out):
     if out.kind == "ok":
         return ("ok", out.xform, tuple(out.warnings), out.itemsets)
-    return (out.kind, out.exc)
+    # a refusal must be the same refusal through every container (same error type and text)
+    return (out.kind, out.exc, " ".join((out.msg or "").split()) if out.kind == "reject" else "")
 
 
 def describe_diff(a, b):
